@@ -5048,6 +5048,9 @@ def ob_insertion_step(ctx, n_tasks):
         eng.exec_fn(st, apply_fn, [RefV(ictx, 0, True), success])
         after_apply = symex.copy_value(ictx.v) if False else None
         snap = observe(env, ictx.v, actors, {'X': sX, 'Y': sY, 'Z': sZ}, tasks)
+        # a context can be handed over as a Solution at any moment (e.g. when the computation is interrupted): jobs still pending count as unassigned
+        early = eng.exec_fn(st, into[0], [Agg('tuple', [ictx.v, mk_option(False, ty='Option<TelemetryMetrics>')], '')])
+        snap['early_unassigned'] = sorted(name_of(env, deref_all(x).fields[0], {'X': sX, 'Y': sY, 'Z': sZ}, tasks) for x in env.field(early, 'domain::Solution', 'unassigned').items)
         eng.exec_fn(st, finalize_fn, [RefV(ictx, 0, True)])
         snap_final = observe(env, ictx.v, actors, {'X': sX, 'Y': sY, 'Z': sZ}, tasks)
         solution = eng.exec_fn(st, into[0], [Agg('tuple', [ictx.v, mk_option(False, ty='Option<TelemetryMetrics>')], '')])
@@ -5128,6 +5131,8 @@ def ob_insertion_step(ctx, n_tasks):
             problems.append(f'required after the insertion: {snap["required"]}, expected [Y]')
         if snap['unassigned'] != ['Z']:
             problems.append(f'unassigned after the insertion: {snap["unassigned"]}, expected [Z]')
+        if snap['early_unassigned'] != ['Y', 'Z']:
+            problems.append(f'Solution made from the context BEFORE finalisation reports unassigned {snap["early_unassigned"]}, expected [Y, Z] (Y is still pending)')
         if fin['required'] != [] or fin['unassigned'] != ['Y', 'Z']:
             problems.append(f'after finalisation: required {fin["required"]}, unassigned {fin["unassigned"]}; expected [] and [Y, Z]')
         if sol_un != ['Y', 'Z']:
